@@ -78,7 +78,7 @@ fn wd() -> std::rc::Rc<dyn storage_layout_extractor::watchdog::Watchdog> {
 }
 
 /// One input under one configuration: staged calls, then the one-call entry point.
-fn run_case(code: &[u8], cfg: &Cfg) -> J {
+fn run_case(code: &[u8], cfg: &Cfg, stages: usize) -> J {
     let mut calls: Vec<J> = Vec::new();
     let mut call = |name: &str, res: &str, msg: String| calls.push(json!({"name": name, "res": res, "msg": msg.chars().take(160).collect::<String>()}));
     // staged, each call guarded on its own
@@ -99,6 +99,9 @@ fn run_case(code: &[u8], cfg: &Cfg) -> J {
             Ok(Err(e)) => { call("execute", "err", format!("{e:?}")); break 'staged; }
             Ok(Ok(x)) => { call("execute", "ok", String::new()); x }
         };
+        if stages <= 3 {
+            break 'staged;
+        }
         let ex4 = match guarded(|| ex3.prepare_unifier()) {
             Err(p) => { call("prepare_unifier", "panic", p); break 'staged; }
             Ok(x) => { call("prepare_unifier", "ok", String::new()); x }
@@ -109,6 +112,11 @@ fn run_case(code: &[u8], cfg: &Cfg) -> J {
             Ok(Ok(_)) => call("infer", "ok", String::new()),
         }
     }
+    if stages <= 3 {
+        // a prefix of the stages only (configurations under which the later stages would run for ages)
+        return json!({"ev": "run", "hex": hex::encode(code), "cfg": cfg.json(), "calls": calls, "analyze": "skipped",
+                      "analyze_msg": "", "stable": true, "prefix": true});
+    }
     // one call
     let code2 = code.to_vec();
     let cfg2 = cfg.clone();
@@ -118,7 +126,7 @@ fn run_case(code: &[u8], cfg: &Cfg) -> J {
         Ok(Ok(_)) => ("layout", String::new()),
     };
     json!({"ev": "run", "hex": hex::encode(code), "cfg": cfg.json(), "calls": calls, "analyze": analyze.0,
-           "analyze_msg": analyze.1, "stable": true})
+           "analyze_msg": analyze.1, "stable": true, "prefix": false})
 }
 
 fn push_word(hexs: &str) -> Item {
@@ -157,6 +165,11 @@ fn roles_program(c: &J, context: usize) -> Vec<u8> {
     items.push(Item::Op(0x00));
     assemble(&items)
 }
+
+/// Constants added to a slot, to the hash of a slot and to the hash of a key and a slot.
+const SLOT_ARITHMETIC_CONSTANTS: [&str; 12] = ["01", "ff", "0100", "ffffffff", "0100000000", "00ffffffffffffff", "0100000000000000", "1000000000000001",
+                                               "ffffffffffffffff", "010000000000000001", "8000000000000000000000000000000000000000000000000000000000000000",
+                                               "ffffffffffffffffffffffffffffffffffffffffffffffffffffffffffffffff"];
 
 /// Programs known to stress the type checker: cyclic types through dynamic arrays / mappings / packed words.
 fn cyclic_programs() -> Vec<Vec<u8>> {
@@ -291,6 +304,20 @@ pub fn run(o: &Opts) -> R<()> {
     let mut rng = StdRng::seed_from_u64(seed ^ 0xc01);
     // the whole case list is generated deterministically first, so that a restart after a crash can skip
     let mut cases: Vec<(String, Vec<u8>, Cfg)> = Vec::new();
+    // slot arithmetic with boundary constants: keccak(key || slot) + c, keccak(slot) + c, slot + c, in a key
+    for c in SLOT_ARITHMETIC_CONSTANTS {
+        let cb = unhex(c)?;
+        for shape in 0..3 {
+            let mut items: Vec<Item> = match shape {
+                0 => vec![Item::Push(vec![0]), Item::Op(0x35), Item::Push(vec![0]), Item::Op(0x52), Item::Push(vec![1]), Item::Push(vec![0x20]), Item::Op(0x52),
+                          Item::Push(vec![0x40]), Item::Push(vec![0]), Item::Op(0x20)],
+                1 => vec![Item::Push(vec![1]), Item::Push(vec![0]), Item::Op(0x52), Item::Push(vec![0x20]), Item::Push(vec![0]), Item::Op(0x20)],
+                _ => vec![Item::Push(vec![1])],
+            };
+            items.extend([Item::Push(cb.clone()), Item::Op(0x01), Item::Op(0x80), Item::Op(0x54), Item::Op(0x90), Item::Op(0x55), Item::Op(0x00)]);
+            cases.push(("crafted:slot-arithmetic".into(), assemble(&items), random_cfg(&mut rng)));
+        }
+    }
     if let Some(p) = o.get("roles") {
         for (i, line) in std::fs::read_to_string(p).map_err(|e| e.to_string())?.lines().filter(|l| !l.trim().is_empty()).enumerate() {
             let c: J = serde_json::from_str(line).map_err(|e| e.to_string())?;
@@ -352,6 +379,21 @@ pub fn run(o: &Opts) -> R<()> {
         };
         cases.push((fam.to_string(), code, random_cfg(&mut rng)));
     }
+    // extreme but valid configurations, run up to and including execution (the later stages would walk
+    // values of astronomic size): value-growing programs under the largest value-size and gas limits
+    for k in [40usize, 70, 130, 300] {
+        let mut code = vec![0x60, 0x01];
+        for _ in 0..k {
+            code.extend([0x80, 0x01]);
+        }
+        code.extend([0x60, 0x00, 0x55, 0x00]);
+        for v in [usize::MAX, usize::MAX / 2, 1usize << 40] {
+            let mut cfg = random_cfg(&mut rng);
+            cfg.v = v;
+            cfg.g = *[30_000_000usize, usize::MAX].choose(&mut rng).unwrap();
+            cases.push(("extreme-config:execute-only".into(), code.clone(), cfg));
+        }
+    }
     let mut w = Ndjson::create(&out)?;
     if skip == 0 {
         w.put_now(&json!({"ev": "begin"}));
@@ -362,7 +404,7 @@ pub fn run(o: &Opts) -> R<()> {
         if let Ok(mut f) = std::fs::File::create(&progress) {
             let _ = writeln!(f, "{}", json!({"index": i, "family": fam, "hex": hex::encode(code), "cfg": cfg.json()}));
         }
-        let mut rec = run_case(code, cfg);
+        let mut rec = run_case(code, cfg, if fam.starts_with("extreme-config") { 3 } else { 5 });
         rec["family"] = json!(fam);
         rec["index"] = json!(i);
         w.put_now(&rec);
